@@ -28,6 +28,9 @@ def units(tier):
     us += func_units(Mq + ".identity", tier)
     us += func_units(Mq + "._get_dict", tier)
     us += func_units(Mq + "._do_attributes", tier, only=lambda inst: inst["identity"].startswith("unknown"))
+    # socket-backed streams (plain / chunked): 'returns exactly the undamaged frames' needs every byte of them delivered once, in order
+    from props.common import socket_units
+    us += socket_units(tier)
     us.append(lemma_unit("crc.step_lemmas", crc_lemmas.step_lemmas))
     us.append(lemma_unit("crc.induction_lemmas", crc_lemmas.induction_lemmas))
     us.append(ground_unit("crc.ground_lemmas", crc_lemmas.ground_lemmas))
